@@ -27,7 +27,9 @@ type GenOpts struct {
 func Random(r *mon.Rand, o GenOpts) *History {
 	h := &History{MaxInFlight: mon.Pick(r, maxChoices), TimeoutNs: o.Timeout}
 	if h.TimeoutNs == 0 {
-		h.TimeoutNs = int64(3600e9)
+		// "cannot elapse during the run": an hour, or one of the far-future values whose sum with the current
+		// time does not fit 63 bits of nanoseconds (100 / 250 years, the largest Duration)
+		h.TimeoutNs = mon.Pick(r, []int64{3600e9, 3600e9, 3600e9, 3600e9, 100 * 365 * 24 * 3600e9, 250 * 365 * 24 * 3600e9, 1<<63 - 1})
 	}
 	switch r.Intn(6) {
 	case 0:
